@@ -8,6 +8,7 @@ mod c05;
 mod c18;
 mod c15;
 mod c06;
+mod c19;
 mod util;
 
 /// Counting allocator: live heap bytes of the process (C17 measures the receiver with it).
@@ -57,6 +58,7 @@ fn main() {
         "multi" => c18::run(&args),
         "toi" => c15::run(&args),
         "wire" => c06::run(&args),
+        "expiry" => c19::run(&args),
         other => {
             eprintln!("unknown subcommand {}", other);
             std::process::exit(2);
